@@ -119,6 +119,15 @@ pub fn judge_written(ans: &Answer, plan: &WriterPlan, truth: &[u8]) -> Option<St
   }
 }
 
+fn has_binary(t: &TreeSpec) -> bool {
+  match t {
+    TreeSpec::RawBytes { .. } | TreeSpec::RawBuffer { .. } => true,
+    TreeSpec::Concat { children, .. } => children.iter().any(has_binary),
+    TreeSpec::Replace { inner, .. } | TreeSpec::Cached { inner, .. } | TreeSpec::User { inner, .. } | TreeSpec::Boxed { inner } => has_binary(inner),
+    _ => false,
+  }
+}
+
 struct Views {
   source: Answer,
   buffer: Answer,
@@ -169,7 +178,6 @@ pub fn check_case(case: &C07Case) -> (Vec<Violation>, Counters, bool, Option<Wri
   sched::set_quiet(true);
   sched::set_shards(Some(4));
   let mut counters = Counters::default();
-  let (text, bytes) = content(&case.tree);
   let mut b = Builder::new();
   let obj = b.build(&case.tree);
   let dynobj: &Dyn = obj.as_ref();
@@ -181,6 +189,42 @@ pub fn check_case(case: &C07Case) -> (Vec<Violation>, Counters, bool, Option<Wri
     counters.inc("skipped_views_panic");
     return (vec![], counters, true, None);
   }
+  // A tree with a replacement whose end lies before its start is outside the
+  // replacement model's domain (C05 says nothing about it), but it is a
+  // source, and C07's clauses are about the views of one source agreeing with
+  // each other: there the object's own cold source() / buffer() are the
+  // reference for rope, size, the writer and every later call.
+  let in_model = crate::model::in_domain(&case.tree);
+  let (text, bytes) = if in_model {
+    content(&case.tree)
+  } else {
+    counters.inc("population:trees_outside_the_replacement_model");
+    match (&v0.source, &v0.buffer) {
+      (Answer::Text(t), Answer::Bytes(bt)) => {
+        if !has_binary(&case.tree) && t.as_bytes() != bt.as_slice() {
+          return (
+            vec![Violation {
+              kind: "view_mismatch".into(),
+              op_class: "buffer".into(),
+              detail: format!(
+                "cold: every leaf holds valid UTF-8, yet buffer() = {:?} is not the bytes of source() = {:?}",
+                String::from_utf8_lossy(bt),
+                t
+              ),
+            }],
+            counters,
+            false,
+            None,
+          );
+        }
+        (t.clone(), bt.clone())
+      }
+      _ => {
+        counters.inc("skipped_views_panic");
+        return (vec![], counters, true, None);
+      }
+    }
+  };
   let mut violations = check_views(&v0, &text, &bytes, "cold");
   let free = exec_op(&objs, 0, &OpKind::ToWriter { plan: WriterPlan::default() }, &ctx(1)).unwrap_or(Answer::NotRun);
   counters.inc("fault_free_writer_runs");
@@ -394,6 +438,35 @@ impl C07 {
         1 => TreeSpec::Concat { children: vec![tree, wide], how: crate::spec::ConcatHow::New },
         _ => TreeSpec::Cached { inner: Box::new(wide), cache_id: 900 },
       };
+    }
+    if rng.chance(25) {
+      // reversed-range swarm mode: a ReplaceSource with one replacement whose
+      // end lies before its start (the library accepts it; only the agreement
+      // of the views is judged, see check_case)
+      let inner_text = content(&tree).0;
+      let pos = crate::gen::legal_positions(&inner_text);
+      let (a, z) = (*rng.pick(&pos), *rng.pick(&pos));
+      if a != z {
+        let mut calls = crate::gen::gen_calls(&mut rng, &inner_text, 3, ascii);
+        let at = rng.usize_below(calls.len() + 1);
+        calls.insert(
+          at,
+          crate::spec::ReplCall {
+            start: a.max(z),
+            end: a.min(z),
+            content: crate::gen::gen_text(&mut rng, 4, ascii),
+            name: None,
+            enforce: None,
+            via_insert: false,
+          },
+        );
+        let rev = TreeSpec::Replace { inner: Box::new(tree.clone()), calls, observe_at: None };
+        tree = match rng.below(3) {
+          0 => rev,
+          1 => TreeSpec::Concat { children: vec![rev, TreeSpec::Raw { text: "t".into() }], how: crate::spec::ConcatHow::New },
+          _ => TreeSpec::Cached { inner: Box::new(rev), cache_id: 901 },
+        };
+      }
     }
     let n_mixed = rng.usize_below(4);
     let mixed = (0..n_mixed).map(|_| crate::conc::gen_writer_plan(&mut rng)).collect();
